@@ -2,7 +2,7 @@
    (The ADVAN/TRANS table obligations are REGENERATED from advan.py on every run into
    build/gen/C01/AdvanObligations.v and compiled there; see harness/props/c01_tadvan.py.) *)
 From Coq Require Import QArith List Bool PArith Arith.
-From PV Require Import Base.PyData Base.Expr Base.Stmts C01.Model C01.Proofs C01.ProofsRates C01.ProofsParams C01.ProofsOmega C01.Parser C01.ParserProofs.
+From PV Require Import Base.PyData Base.Expr Base.Stmts C01.Model C01.Proofs C01.ProofsRates C01.ProofsParams C01.ProofsOmega C01.Parser C01.ParserProofs C01.Des C01.ProofsDes.
 Local Open Scope nat_scope.
 
 (* Reading abbreviated code preserves its meaning.  For EVERY program (any length, any nesting,
@@ -155,3 +155,23 @@ Proof. exact parse_print_lemma. Qed.
 
 Theorem parse_print_expr : forall e : expr, wfe e = true -> p_add (need e + 6) (pr e) = Some (e, nil).
 Proof. exact parse_print_expr_lemma. Qed.
+
+(* $DES.  For EVERY system of differential equations DADT(a) = sum of terms +-k*A_x (any number of
+   compartments and terms) that satisfies the decidable guard [des_guard] (distinct left-hand sides, loss
+   terms in their own equation, every gain term has its loss term, distinct rate constants among what
+   leaves one compartment), and every valuation of rate constants and amounts: the compartmental system
+   that the model of to_compartmental_system builds (flows between compartments [des_flows], flows to
+   output [des_outs]) has, for every compartment, exactly the written right-hand side as its differential
+   equation  dA_a/dt = inflow - outflow - output. *)
+Theorem des_sound :
+  forall (eqs : list deq) (rho : id -> Q) (a : id) (ts : list dterm),
+    des_guard eqs = true -> In (a, ts) eqs ->
+    (sys_rhs rho (des_flows eqs) (des_outs eqs) a == terms_val rho ts)%Q.
+Proof. intros eqs rho a ts Hg Hin. exact (des_sound_lemma eqs Hg rho a ts Hin). Qed.
+
+(* in a guarded system every gain term +k*A_x is attributed to compartment x *)
+Theorem des_flow_source :
+  forall (eqs : list deq) (e : deq) (t : dterm),
+    des_guard eqs = true -> In e eqs -> In t (snd e) -> dt_pos t = true ->
+    find_from eqs (dt_k t) (dt_a t) = Some (dt_a t).
+Proof. intros eqs e t Hg. exact (find_from_pos eqs Hg e t). Qed.
